@@ -1,4 +1,5 @@
 import TracklibVerif.Lemmas.TextIOGpx
+import TracklibVerif.Lemmas.TextIOAll
 /-! # C13 — tracks and networks written to file are read back unchanged
 
 Theorems about the model `TV.TextIO` (`Model/TextIO.lean`), which mirrors
@@ -114,6 +115,46 @@ theorem csv_header_block_roundtrip (f : CsvFmt) (geo : Bool) (pf : List Tok) (na
     readCsv f pf pre.length (((pre ++ (cm ++ rows.map (fun ra => rowLine f geo pf ra.1 ra.2))).map (· ++ ['\n'])).flatten)
       = .ok (rows.map (fun ra => expRow f geo pf ra.1)) :=
   TV.TextIO.csv_header_block_roundtrip f geo pf naf rows hv hsep hnl htime hrows hafs pre cm hpre hcm
+
+/-- **T2 (feature columns)** `csv_read_all_roundtrip`: a track written by `writeToFile` with its header block (`h > 0`)
+and the feature columns `af_names = names` — values of any kind (`AFVal`: int, float on a decimal lattice, str, nan, ±inf)
+whose text is one field of the line (`AFOK`), names that are good fields, distinct and not refused by the track (`NameOK`),
+a separator that is not one of the letters of the column names `E N U X Y Z lon lat h time` — is read back by
+`readFromCsv(..., h=hr, read_all=True)`, for `hr` = 0, 1, 2 (in particular the matching calls `h = hr = 1` and `h = hr = 2`),
+as the same observations, the same feature names in the same order, and for every observation the values `expAF name v`
+(`read_all_values` says what they are). The names are those of the last header line (`#E;N;U;time;af0;…`), which the first
+pass reads as a comment line; the second pass reads the first line raw and the others stripped. (`hr = 3`, where the
+names line is consumed by the header loop with its newline, is covered by correspondence only; `h = 0` writes no names:
+the reader raises UnboundLocalError.) -/
+theorem csv_read_all_roundtrip (f : CsvFmt) (geo : Bool) (pf : List Tok) (h naf : Nat) (rows : List (Row × List AFVal))
+    (srid : Str) (names : List Str)
+    (hv : ValidIds f) (hsep : numChar f.sep = false) (hnl : f.sep ≠ '\n') (hcol : f.sep ∉ colChars)
+    (htime : f.idT ≠ -1 → TimeOK pf f.sep)
+    (hrows : ∀ ra ∈ rows, RowOK f geo pf ra.1) (hafs : ∀ ra ∈ rows, ∀ v ∈ ra.2, AFOK f.sep v) (hsrid : '\n' ∉ srid)
+    (hpos : 0 < h) (hne : rows ≠ [])
+    (hnames : ∀ n ∈ names, NameOK f.sep n) (hnd : names.Nodup) (hrl : ∀ ra ∈ rows, ra.2.length = names.length) :
+    ∃ text, writeToFile f geo pf h naf rows srid names = .ok text ∧
+      ∀ hr, hr ≤ 2 → readCsvAll f pf hr text
+        = .ok (rows.map (fun ra => expRow f geo pf ra.1), names,
+               rows.map (fun ra => (names.zip ra.2).map (fun nv => expAF nv.1 nv.2))) :=
+  TV.TextIO.csv_read_all_roundtrip f geo pf h naf rows srid names hv hsep hnl hcol htime hrows hafs hsrid hpos hne hnames hnd hrl
+
+/-- `read_all_values`: what `expAF` is. In a column whose name does not end in `&`: an `int` comes back as the float of the
+same value; a float `n / 10^d` as the decimal `str()` printed, whose value is `n / 10^d` (`repr_value`); `nan`, `inf`, `-inf`
+as themselves; a string that `float()` refuses and that holds no double quote as itself. In a column whose name ends in `&`
+every value comes back as its text. Feature values that are ints or floats always satisfy `AFOK` when the separator is not
+a number character. -/
+theorem read_all_values (name : Str) :
+    (name.getLast? ≠ some '&' →
+      (∀ i, expAF name (.int i) = .num (i, 0)) ∧
+      (∀ d n, expAF name (.dec d n) = .num (reprVal d n) ∧ (reprVal d n).2 ≤ d ∧ (reprVal d n).1 * 10 ^ (d - (reprVal d n).2) = n) ∧
+      expAF name .nan = .nan ∧ (∀ b, expAF name (.inf b) = .inf b) ∧
+      (∀ s, floatLit? s = none → '"' ∉ s → expAF name (.str s) = .str s)) ∧
+    (name.getLast? = some '&' → ∀ v, expAF name v = .str (afText v)) ∧
+    (∀ sep, numChar sep = false → (∀ i, AFOK sep (.int i)) ∧ (∀ d n, AFOK sep (.dec d n))) := by
+  refine ⟨fun h => ?_, fun h v => expAF_amp name h v, fun sep hs => ⟨afOK_int sep hs, afOK_dec sep hs⟩⟩
+  obtain ⟨h1, h2, h3, h4, h5⟩ := expAF_values name h
+  exact ⟨h1, fun d n => ⟨h2 d n, reprVal_value d n⟩, h3, h4, h5⟩
 
 /-- **T3 `time_roundtrip`**: for a format made of distinct full-width codes (`2D 2M 4Y 2h 2m 2s 3z`,
 `Lossless`) and arbitrary literal characters, and a stamp whose fields fit their widths (`Fits`: four-digit
@@ -240,6 +281,22 @@ example : (readCsv ⟨1, 0, -1, 2, ';'⟩ (tokenize "2D/2M/4Y 2h:2m:2s".toList) 
       "#srid: Geo\n#ref point: None\n#lat;lon;time;af0\n-2.5000000000;1.5000000000;01/01/2020 10:00:00;-7\n".toList).toOption
       = some [⟨(15000000000, 10), (-25000000000, 10), (0, 0), ⟨⟨2020, 1, 1, 10, 0, 0⟩, 0⟩⟩] := by decide +kernel
 example : HdrOK "ECEF".toList ["af0".toList, "speed".toList] := by unfold HdrOK; decide
+/-- a file with three feature columns (float, string-typed `k&`, string) read back with `read_all` -/
+example : (readCsvAll ⟨0, 1, -1, 2, ';'⟩ (tokenize "2D/2M/4Y 2h:2m:2s".toList) 1
+      "#srid: ENU\n#ref point: None\n#E;N;time;speed;k&;mode\n1.500;2.500;02/01/2020 03:04:05;1.25;12;walk\n4.500;5.500;02/01/2020 03:04:06;nan;13;\"q\"\n".toList).toOption
+    = some ([⟨(1500, 3), (2500, 3), (0, 0), ⟨⟨2020, 1, 2, 3, 4, 5⟩, 0⟩⟩, ⟨(4500, 3), (5500, 3), (0, 0), ⟨⟨2020, 1, 2, 3, 4, 6⟩, 0⟩⟩],
+        ["speed".toList, "k&".toList, "mode".toList],
+        [[.num (125, 2), .str "12".toList, .str "walk".toList], [.nan, .str "13".toList, .str "q".toList]]) := by decide +kernel
+/-- without the header block there are no names: UnboundLocalError -/
+example : (match readCsvAll ⟨0, 1, -1, -1, ';'⟩ [] 0 "1.500;2.500;7\n".toList with | .error e => e | .ok _ => "") = "unbound" := by
+  decide +kernel
+example : NameOK ';' "speed".toList ∧ NameOK ';' "k&".toList ∧ ¬ NameOK ';' "x".toList := by
+  unfold NameOK FieldOK reserved
+  refine ⟨⟨⟨⟨by decide, ?_, ?_⟩, by decide, by decide⟩, by decide⟩, ⟨⟨⟨by decide, ?_, ?_⟩, by decide, by decide⟩, by decide⟩, fun h => h.2 (by decide)⟩ <;>
+    (intro c hc; simp at hc; subst hc; decide)
+example : AFOK ';' (.str "walk".toList) ∧ ';' ∉ colChars := by
+  unfold AFOK FieldOK
+  refine ⟨⟨⟨by decide, ?_, ?_⟩, by decide, by decide⟩, by decide⟩ <;> (intro c hc; simp [afText] at hc; subst hc; decide)
 /-- the network reader with `header=0` keeps the first record -/
 example : (netRead ⟨0, 1, 2, 3, 4, ',', 0⟩ "e1,a,b,-1,\"LINESTRING(0.0 0.0,1.5 -2.25)\"\n".toList).toOption
     = some [⟨"e1".toList, "a".toList, "b".toList, -1, [((0, 1), (0, 1), (0, 0)), ((15, 1), (-225, 2), (0, 0))]⟩] := by decide +kernel
